@@ -1,2 +1,88 @@
-(* C15 — placeholder *)
-From HC Require Import Base.
+(* C15 — a shared core is linearizable (pinned statements; proofs in Shared.v).
+   Model: tasks issue method calls on one shared object; a method body is a list of micro-steps (one per
+   storage operation / await point) run between acquiring and releasing one mutex; any task may be
+   scheduled at any micro-step. Proved for any number of tasks, calls and micro-steps and EVERY
+   schedule: the shared state and all results equal the atomic execution of the calls in completion
+   (= lock acquisition) order, each task's results and program order are preserved, the order respects
+   real time, and for an append-only log the append results are gap-free increasing lengths.
+   Tie to the source: SharedShape.v is regenerated on every run from src/replication/shared_core.rs
+   (tools/c15.py) and must say that every trait method is a single critical section.
+   Partial by nature: fairness and wake-ups of async_lock::Mutex and of the executor are run-time
+   behaviour; they are exercised by the deterministic-scheduler runs of tools/c15.py. *)
+From Coq Require Import String.
+From Coq Require Import List Bool Arith.
+From HC Require Import Shared SharedShape.
+Import ListNotations.
+
+Definition all_atomic (l : list (string * bool)) : bool := forallb snd l.
+
+(* premise of the model, derived from the source on every run *)
+Theorem C15_every_method_is_one_critical_section :
+  all_atomic shared_shape = true /\ shared_shape <> [].
+Proof. split; [vm_compute; reflexivity | discriminate]. Qed.
+
+Theorem C15_mutex_serializable :
+  forall (S L R call : Type) (l0 : call -> L) (body : call -> list (S * L -> S * L)) (res : call -> L -> R)
+         s0 progs cfg,
+  steps l0 body res (init s0 progs) cfg -> holder cfg = None ->
+  seq_run l0 body res s0 (map (fun e => snd (fst e)) (log cfg)) = (shared cfg, map snd (log cfg)).
+Proof. exact serializable. Qed.
+
+Theorem C15_results_and_program_order :
+  forall (S L R call : Type) (l0 : call -> L) (body : call -> list (S * L -> S * L)) (res : call -> L -> R)
+         s0 progs cfg,
+  steps l0 body res (init s0 progs) cfg ->
+  forall t tk, nth_error (tasks cfg) t = Some tk ->
+    out tk = map snd (filter (fun e => Nat.eqb (fst (fst e)) t) (log cfg)) /\
+    map (fun e => snd (fst e)) (filter (fun e => Nat.eqb (fst (fst e)) t) (log cfg)) ++ current (st tk) ++ prog tk
+      = nth t progs [].
+Proof.
+  intros S L R call l0 body res s0 progs cfg H t tk Ht. split.
+  - exact (results_match_log S L R call l0 body res s0 progs cfg H t tk Ht).
+  - exact (program_order S L R call l0 body res s0 progs cfg H t tk Ht).
+Qed.
+
+Theorem C15_no_partial_observation :
+  forall (S L R call : Type) (l0 : call -> L) (body : call -> list (S * L -> S * L)) (res : call -> L -> R)
+         s0 progs cfg,
+  steps l0 body res (init s0 progs) cfg ->
+  (forall t tk, nth_error (tasks cfg) t = Some tk -> (running (st tk) <-> holder cfg = Some t)) /\
+  (forall t, holder cfg = Some t -> exists tk, nth_error (tasks cfg) t = Some tk) /\
+  (forall t1 t2 tk1 tk2, nth_error (tasks cfg) t1 = Some tk1 -> nth_error (tasks cfg) t2 = Some tk2 ->
+     running (st tk1) -> running (st tk2) -> t1 = t2).
+Proof. exact lock_exclusive. Qed.
+
+Theorem C15_real_time_order :
+  forall (S L R call : Type) (l0 : call -> L) (body : call -> list (S * L -> S * L)) (res : call -> L -> R)
+         s0 progs cfg k,
+  stepsT l0 body res (initT s0 progs) (cfg, k) ->
+  map fst (tlog k) = log cfg /\
+  forall i j a b, nth_error (tlog k) i = Some a -> nth_error (tlog k) j = Some b -> fin a < sta b -> i < j.
+Proof. exact realtime_respected. Qed.
+
+Theorem C15_every_run_has_a_clock :
+  forall (S L R call : Type) (l0 : call -> L) (body : call -> list (S * L -> S * L)) (res : call -> L -> R)
+         s0 progs cfg,
+  steps l0 body res (init s0 progs) cfg -> exists k, stepsT l0 body res (initT s0 progs) (cfg, k).
+Proof. exact reachable_has_clock. Qed.
+
+Theorem C15_append_lengths_gap_free :
+  forall s0 progs cfg, steps a_l0 a_body a_res (init s0 progs) cfg -> holder cfg = None ->
+  forall i t x r, nth_error (log cfg) i = Some (t, Append x, r) ->
+  r = 1 + appends (firstn i (map (fun e => snd (fst e)) (log cfg))) + length s0.
+Proof. exact append_lengths_gap_free. Qed.
+
+Example C15_concrete_interleaving :
+  exists cfg, demo_final = Some cfg /\ steps a_l0 a_body a_res demo_init cfg /\
+  holder cfg = None /\ shared cfg = [5;9;7] /\
+  log cfg = [(1,Append 9,2); (0,Append 7,3); (0,Len,3)] /\
+  seq_run a_l0 a_body a_res [5] (map (fun e => snd (fst e)) (log cfg)) = (shared cfg, map snd (log cfg)).
+Proof. exact demo_run. Qed.
+
+Print Assumptions C15_every_method_is_one_critical_section.
+Print Assumptions C15_mutex_serializable.
+Print Assumptions C15_results_and_program_order.
+Print Assumptions C15_no_partial_observation.
+Print Assumptions C15_real_time_order.
+Print Assumptions C15_every_run_has_a_clock.
+Print Assumptions C15_append_lengths_gap_free.
